@@ -1,15 +1,28 @@
-//! Development helper: print the generated bindings of a WIT file (`e3dev <file.wit> [cfg]`).
-use e3_rust::gen;
+//! Development helper: `e3dev gen <file.wit> [cfg]` prints generated bindings; `e3dev count` prints universe sizes.
+use e3_rust::{gen, world};
 
 fn main() {
     let a: Vec<String> = std::env::args().skip(1).collect();
-    let cfg = gen::Config::parse(a.get(1).map(|s| s.as_str()).unwrap_or("owning-std-nomerge-btreemap-str")).expect("cfg");
-    let wit = std::fs::read_to_string(&a[0]).expect("wit file");
-    match gen::generate(&wit, &cfg) {
-        Ok(s) => println!("{s}"),
-        Err(e) => {
-            eprintln!("{e}");
-            std::process::exit(1)
+    match a.first().map(|s| s.as_str()) {
+        Some("count") => {
+            for u in ["u1", "pairs", "quick", "u2", "u3r", "thorough"] {
+                let t = refabi::universe::universe(u);
+                let s = t.iter().filter(|t| world::supported(t)).count();
+                let cases: usize = t.iter().filter(|t| world::supported(t)).map(|t| 2 * refabi::universe::values(t).len()).sum();
+                println!("{u}: {} types, {s} supported, {cases} cases per configuration", t.len());
+            }
         }
+        Some("gen") => {
+            let cfg = gen::Config::parse(a.get(2).map(|s| s.as_str()).unwrap_or("owning-std-nomerge-btreemap-str")).expect("cfg");
+            let wit = std::fs::read_to_string(&a[1]).expect("wit file");
+            match gen::generate(&wit, &cfg) {
+                Ok(s) => println!("{s}"),
+                Err(e) => {
+                    eprintln!("{e}");
+                    std::process::exit(1)
+                }
+            }
+        }
+        _ => eprintln!("usage: e3dev count | gen <file.wit> [cfg]"),
     }
 }
